@@ -163,6 +163,17 @@ def C04(s, known):
     quick = s.tier == "quick"
     sents = grammar_models(s, 9 if quick else 12, 4 if quick else 5, 3 if quick else 4)
     if s.inproc_ok:
+        # the real lexer, token by token, against the mode machine of Lexer.tla (spans and mode flags through the verif hooks)
+        ml = s.drive("lexer", binary=s.vinproc)
+        s.validate(ml, "LexerTrace", known=known, shard=max(200, len_records(ml) // 12 + 1))
+
+        def corrupt(rec):
+            for r in [rec]:
+                if r["toks"]:
+                    r["toks"][0]["meta"] = not r["toks"][0]["meta"]
+                else:
+                    r["lexErr"] = not r["lexErr"]
+        s.binding_selftest(ml, "LexerTrace", corrupt)
         # the shipped LALR tables against the language, without the lexer in between
         mt = s.drive("tokens", binary=s.vinproc, args=["-aux", sents])
         s.validate(mt, "TokenTrace", known=known, shard=max(1000, len_records(mt) // 12 + 1))
@@ -180,6 +191,7 @@ def C05(s, known):
     s.build()
     s.model("TheoryMC", workers=4)
     s.model("LexerMC", workers=8, constants={"K": 3})
+    s.model("ConvMC", workers=4, constants={"Depth": 1 if s.tier == "quick" else 2})
     m = s.drive("c05")
     s.validate(m, "ConvTrace", cfg="C05Trace.cfg", known=known, shard=max(10, len_records(m) // 12 + 1))
     s.validate(m, "TransposeTrace", known=known, shard=max(10, len_records(m) // 12 + 1))
